@@ -618,9 +618,7 @@ class TranscriptInterval(AbstractFeatureInterval):
         if self.cds.chunk_relative_location == self.chunk_relative_location:
             return EmptyLocation()
         cds_start_on_transcript = self.cds_pos_to_transcript(0)
-        return self.chunk_relative_location.relative_interval_to_parent_location(
-            0, cds_start_on_transcript, Strand.PLUS
-        )
+        return self._transcript_interval_to_chunk_relative_location(0, cds_start_on_transcript)
 
     def get_3p_interval(self) -> Location:
         """Returns the 3' UTR as a location, if it exists.
@@ -632,10 +630,21 @@ class TranscriptInterval(AbstractFeatureInterval):
         # handle the edge case where the CDS is full length
         if self.cds.chunk_relative_location == self.chunk_relative_location:
             return EmptyLocation()
-        cds_inclusive_end_on_transcript = self.cds_pos_to_transcript(len(self.cds.chunk_relative_location) - 1)
-        return self.chunk_relative_location.relative_interval_to_parent_location(
-            cds_inclusive_end_on_transcript + 1, len(self._location), Strand.PLUS
-        )
+        cds_inclusive_end_on_transcript = self.cds_pos_to_transcript(len(self.cds) - 1)
+        return self._transcript_interval_to_chunk_relative_location(cds_inclusive_end_on_transcript + 1, len(self))
+
+    def _transcript_interval_to_chunk_relative_location(self, rel_start: int, rel_end: int) -> Location:
+        """
+        Returns the part of this transcript between two positions along the full-length transcript as a Location in
+        the coordinates of ``chunk_relative_location``. A sequence chunk may hold only a slice of this transcript, so
+        the interval is taken on the chromosome and then restricted to the chunk.
+        """
+        if not self.is_chunk_relative:
+            return self.chunk_relative_location.relative_interval_to_parent_location(rel_start, rel_end, Strand.PLUS)
+        location = self.chromosome_location.relative_interval_to_parent_location(rel_start, rel_end, Strand.PLUS)
+        if location.is_empty:
+            return EmptyLocation()
+        return self.liftover_location_to_seq_chunk_parent(location, self._parent_or_seq_chunk_parent)
 
     @lru_cache(maxsize=1)
     def get_transcript_sequence(self) -> Sequence:
